@@ -245,6 +245,23 @@ func c34Gen(r *vu.Rng, i int) []string {
 		if !mismatch {
 			hstop = c34GenStop(r, total)
 		}
+		if !mismatch && nobody == 0 && r.Chance(1, 12) {
+			// region of the known finding early-response-lost: small client stream write buffer,
+			// a body that does not fit it, a handler that answers after reading only a little
+			ops[0] = strings.TrimSuffix(ops[0], " 0") + " 2048"
+			var toks []string
+			total = 0
+			for i := r.Range(2, 5); i > 0; i-- {
+				sz := r.Range(3000, 9000)
+				total += sz
+				toks = append(toks, vu.Hex(r.Bytes(sz)))
+			}
+			chunks = strings.Join(toks, ".")
+			if cl > 0 {
+				cl = total
+			}
+			hstop = r.Intn(200)
+		}
 		ops = append(ops,
 			fmt.Sprintf("hplan %s %d", c34GenReads(r), hstop),
 			c34GenResp(r),
